@@ -48,7 +48,7 @@ TCP_IPS = ["127.0.0.1", "10.1.2.3", "192.0.2.77", "::1", "2001:db8::1"]
 def required_counters(tier):
     return [
         "alias-collisions", "cgi-shadow-attempts", "repeated-fields",
-        "body:none", "body:cl-bytes", "body:cl-tempfile", "body:chunked",
+        "body:none", "body:cl-bytes", "body:cl-tempfile", "body:chunked", "body:migrated-bytesio-to-tempfile",
         "target:origin", "target:absolute", "target:asterisk", "target:authority",
         "escape:valid", "escape:invalid",
         "prefix:exact", "prefix:under", "prefix:outside",
@@ -94,6 +94,12 @@ def shard_configs(shard):
                         cfg["ident"] = ident
                     if (i + shard) % 2 == 0:
                         cfg["inbuf_overflow"] = 16
+                    elif (i + shard) % 6 == 1:
+                        # a body that first lives in a BytesIO buffer and then crosses the
+                        # threshold in a later read migrates BytesIO -> temp file (needs a
+                        # threshold above the 8 KiB string stage and a body arriving in
+                        # several reads)
+                        cfg["inbuf_overflow"] = 20000
                     if (i + shard) % 5 == 0:
                         cfg["recv_bytes"] = 7
                     out.append((cfg, unix))
@@ -327,6 +333,8 @@ def rand_body(rng, overflow, allow_big):
         n = rng.randrange(200, 2000)
     else:
         n = rng.choice([8191, 8192, 8193, 9000, 20000])
+        if overflow == 20000:
+            n = rng.choice([19999, 20001, 24000, 30000, 41000])
     r = rng.random()
     if r < 0.2:
         base = b"GET /smuggled HTTP/1.1\r\nHost: x\r\n\r\n0\r\n\r\n"
@@ -732,6 +740,8 @@ def run_stream(acc, data, cfg, unix, addr, how, lazy, nreq=None, sample=False):
                 acc.count("body:none-with-cl0")
         elif o.framing == "cl":
             bpath = "cl-bytes" if inmem else "cl-tempfile"
+            if not inmem and 8192 < cfg.get("inbuf_overflow", 524288) <= len(o.body):
+                acc.count("body:migrated-bytesio-to-tempfile")
             acc.count("body:" + bpath)
             if len(o.body) >= 8192:
                 acc.count("body:cl-over-strbuf")
